@@ -213,6 +213,8 @@ impl PanicInfo {
 
 #[derive(Clone, Debug)]
 pub struct Violation {
+    /// which run_cases stage produced it (needed to replay exactly that case)
+    pub stage: String,
     /// stable signature (see DESIGN.md §2)
     pub sig: String,
     pub detail: String,
@@ -222,7 +224,7 @@ pub struct Violation {
 
 impl Violation {
     pub fn new(sig: impl Into<String>, detail: impl Into<String>) -> Violation {
-        Violation { sig: sig.into(), detail: detail.into(), input: None, extra: Value::Null }
+        Violation { stage: String::new(), sig: sig.into(), detail: detail.into(), input: None, extra: Value::Null }
     }
     pub fn with_input(mut self, bytes: &[u8]) -> Violation {
         self.input = Some(bytes.to_vec());
@@ -341,6 +343,50 @@ pub fn run_cases<F>(ctx: &Ctx, n: u64, f: F) -> Summary
 where
     F: Fn(u64) -> CaseResult + Sync,
 {
+    run_stage(ctx, "main", n, f)
+}
+
+/// (stage, case index) recorded in a replay file
+pub fn replay_target(ctx: &Ctx) -> Option<(String, u64)> {
+    let p = ctx.replay.as_ref()?;
+    let t = std::fs::read_to_string(p).ok()?;
+    let v: Value = serde_json::from_str(&t).ok()?;
+    Some((v.get("stage").and_then(|x| x.as_str()).unwrap_or("main").to_string(), v.get("case_index").and_then(|x| x.as_u64()).unwrap_or(0)))
+}
+
+/// Like `run_cases`, for checks with several stages. In replay mode only the
+/// recorded (stage, case index) is executed.
+pub fn run_stage<F>(ctx: &Ctx, stage: &str, n: u64, f: F) -> Summary
+where
+    F: Fn(u64) -> CaseResult + Sync,
+{
+    if ctx.replay.is_some() {
+        let mut total = Summary::default();
+        if let Some((st, idx)) = replay_target(ctx) {
+            if st == stage && idx < n {
+                match guarded(|| f(idx)) {
+                    Ok(mut cr) => {
+                        for v in cr.violations.iter_mut() {
+                            v.stage = stage.to_string();
+                        }
+                        total.absorb(idx, cr)
+                    }
+                    Err(p) => {
+                        let mut cr = CaseResult::default();
+                        if p.in_library() {
+                            let mut v = Violation::new(p.signature(), format!("case {}: library panicked: {} at {}", idx, p.message, p.location));
+                            v.stage = stage.to_string();
+                            cr.violations.push(v);
+                        } else {
+                            cr.inconclusive = Some(format!("harness panic: {} at {}", p.message, p.location));
+                        }
+                        total.absorb(idx, cr)
+                    }
+                }
+            }
+        }
+        return total;
+    }
     let next = AtomicU64::new(0);
     let total = Mutex::new(Summary::default());
     let threads = ctx.threads.max(1);
@@ -355,12 +401,19 @@ where
                     }
                     let r = guarded(|| f(i));
                     match r {
-                        Ok(cr) => local.absorb(i, cr),
+                        Ok(mut cr) => {
+                            for v in cr.violations.iter_mut() {
+                                v.stage = stage.to_string();
+                            }
+                            local.absorb(i, cr)
+                        }
                         Err(p) => {
                             let mut cr = CaseResult::default();
                             if p.in_library() {
                                 cr.outcomes.push("library-panic".into());
-                                cr.violations.push(Violation::new(p.signature(), format!("case {}: library panicked: {} at {} (first library frame {:?})", i, p.message, p.location, p.asefile_frame)).with_extra(json!({"case_index": i})));
+                                let mut v = Violation::new(p.signature(), format!("case {}: library panicked: {} at {} (first library frame {:?})", i, p.message, p.location, p.asefile_frame)).with_extra(json!({"case_index": i}));
+                                v.stage = stage.to_string();
+                                cr.violations.push(v);
                             } else {
                                 cr.outcomes.push("harness-panic".into());
                                 cr.inconclusive = Some(format!("case {}: harness panic: {} at {}", i, p.message, p.location));
@@ -432,6 +485,7 @@ pub fn write_replay(ctx: &Ctx, idx: u64, v: &Violation) -> PathBuf {
         "tier": ctx.tier.name(),
         "seed": ctx.seed,
         "case_index": idx,
+        "stage": if v.stage.is_empty() { "main" } else { v.stage.as_str() },
         "signature": v.sig,
         "detail": v.detail,
         "extra": v.extra,
@@ -482,7 +536,8 @@ pub fn finish(ctx: &Ctx, sum: Summary, fin: Finish) -> i32 {
         }
     }
     let wall = ctx.start.elapsed().as_secs_f64();
-    let inconclusive = !sum.inconclusive.is_empty() || sum.evaluations < fin.min_evaluations.max(1) || sum.distinct.len() < 2;
+    let replaying = ctx.replay.is_some();
+    let inconclusive = !sum.inconclusive.is_empty() || (!replaying && (sum.evaluations < fin.min_evaluations.max(1) || sum.distinct.len() < 2)) || (replaying && sum.evaluations == 0);
     let mut coverage = json!({
         "evaluations": sum.evaluations,
         "distinct_nontrivial": sum.distinct.len(),
